@@ -31,6 +31,8 @@ struct State {
     // schedule being executed
     prefix: Vec<usize>,
     rng: Option<u64>,
+    /// "few preemptions at random places": switch to another thread exactly at these decisions
+    switch_points: Option<Vec<usize>>,
     decisions: Vec<Decision>,
     last: Option<usize>,
     progress: u64,
@@ -47,6 +49,21 @@ impl State {
         let di = self.decisions.len();
         let chosen = if di < self.prefix.len() && enabled.contains(&self.prefix[di]) {
             self.prefix[di]
+        } else if let Some(points) = &self.switch_points {
+            let seed = self.rng.get_or_insert(1);
+            *seed = crate::util::mix(*seed, di as u64 + 1);
+            match prev_enabled {
+                Some(p) if !points.contains(&di) => p,
+                Some(p) => {
+                    let others: Vec<usize> = enabled.iter().copied().filter(|e| *e != p).collect();
+                    if others.is_empty() {
+                        p
+                    } else {
+                        others[(*seed % others.len() as u64) as usize]
+                    }
+                }
+                None => enabled[(*seed % enabled.len() as u64) as usize],
+            }
         } else if let Some(seed) = self.rng.as_mut() {
             *seed = crate::util::mix(*seed, di as u64 + 1);
             enabled[(*seed % enabled.len() as u64) as usize]
@@ -79,6 +96,7 @@ impl Shared {
                 abandoned: false,
                 prefix: vec![],
                 rng: None,
+                switch_points: None,
                 decisions: vec![],
                 last: None,
                 progress: 0,
@@ -191,6 +209,12 @@ impl<R: Send + 'static> Pool<R> {
     /// the prefix the default policy is: keep running the same thread if it is still enabled,
     /// else the lowest enabled id (or pseudo-random choices if `random` is set).
     pub fn run(&mut self, jobs: Vec<Job<R>>, prefix: &[usize], random: Option<u64>, step_timeout: Duration) -> (Vec<Decision>, RunEnd<R>) {
+        self.run_with(jobs, prefix, random, None, step_timeout)
+    }
+
+    /// `switch_points`: instead of a uniformly random schedule, run non-preemptively and switch
+    /// threads exactly at the given decision indices (few preemptions at random places)
+    pub fn run_with(&mut self, jobs: Vec<Job<R>>, prefix: &[usize], random: Option<u64>, switch_points: Option<Vec<usize>>, step_timeout: Duration) -> (Vec<Decision>, RunEnd<R>) {
         let n = self.n;
         assert_eq!(jobs.len(), n);
         assert!(!self.poisoned);
@@ -204,6 +228,7 @@ impl<R: Send + 'static> Pool<R> {
             }
             st.prefix = prefix.to_vec();
             st.rng = random;
+            st.switch_points = switch_points;
             st.decisions = vec![];
             st.last = None;
         }
@@ -367,7 +392,20 @@ pub fn explore<R: Send + 'static>(
         let mut s = seed;
         for _ in 0..random_after {
             s = crate::util::mix(s, 0x5eed);
-            let (ds, end) = pool.run(make(), &[], Some(s), step_timeout);
+            // alternate: uniformly random choices / 1..5 preemptions at random decision indices
+            let points = if s % 2 == 0 && stats.max_decisions > 2 {
+                let k = 1 + (s >> 8) % 5;
+                let mut v = vec![];
+                let mut x = s;
+                for _ in 0..k {
+                    x = crate::util::mix(x, 0xC0FFEE);
+                    v.push((x % stats.max_decisions as u64) as usize);
+                }
+                Some(v)
+            } else {
+                None
+            };
+            let (ds, end) = pool.run_with(make(), &[], Some(s), points, step_timeout);
             stats.schedules += 1;
             stats.random_schedules += 1;
             stats.max_preemptions_seen = stats.max_preemptions_seen.max(preemptions(&ds));
